@@ -741,11 +741,14 @@ const (
 )
 
 // replayCacheTTL is how long an executed request is remembered: long enough
-// for its Event-Timestamp to leave the replay window (a timestamp may be up
-// to window seconds ahead of the local clock).
+// for its Event-Timestamp to leave the replay window. A timestamp may be up
+// to window seconds ahead of the local clock, and the window test works on
+// whole seconds: a request executed at t with a timestamp of t+window is
+// still admitted during the whole second t+2*window, so the entry has to
+// outlive that second as well.
 func replayCacheTTL() time.Duration {
 	if p := GetProvider(); p != nil && p.cfg.CoAReplayWindow > 0 {
-		return 2 * time.Duration(p.cfg.CoAReplayWindow) * time.Second
+		return 2*time.Duration(p.cfg.CoAReplayWindow)*time.Second + time.Second
 	}
 	return replayCacheDefaultTTL
 }
